@@ -47,6 +47,7 @@ MakeNode(nd, d) ==
   IF IsNum(nd.op) THEN <<NumVal(nd.op)>>
   ELSE IF nd.op \in {"add", "mul"} /\ d[nd.ch[1]] # << >> /\ d[nd.ch[2]] # << >>
        THEN <<IF nd.op = "add" THEN d[nd.ch[1]][1] + d[nd.ch[2]][1] ELSE d[nd.ch[1]][1] * d[nd.ch[2]][1]>>
+  ELSE IF nd.op = "mul" /\ (d[nd.ch[1]] = <<0>> \/ d[nd.ch[2]] = <<0>>) THEN <<0>>     \* zero is absorbing
   ELSE << >>
 RECURSIVE DatumFix(_, _, _)
 DatumFix(nodes, K, d) ==
